@@ -119,10 +119,18 @@ var testLocations = func() []*time.Location {
 	return locs
 }()
 
+// monoBase is the one wall-clock reading of the harness (taken once per process): the only way to obtain a
+// time.Time that carries a monotonic reading. Only the "has a monotonic part" aspect matters to the oracles;
+// the instant itself differs between runs (see DESIGN 9.5).
+var monoBase = time.Now()
+
 func genTime() *rapid.Generator[time.Time] {
 	return rapid.Custom(func(t *rapid.T) time.Time {
 		var tm time.Time
-		switch rapid.IntRange(0, 9).Draw(t, "timeKind") {
+		switch rapid.IntRange(0, 10).Draw(t, "timeKind") {
+		case 10:
+			// a wall-clock reading that still carries its monotonic part (what time.Now returns)
+			tm = monoBase.Add(-time.Duration(rapid.Int64Range(0, int64(400*24*time.Hour)).Draw(t, "ago")))
 		case 0:
 			return time.Time{} // zero time, nil location
 		case 1:
